@@ -252,7 +252,7 @@ Proof. unfold incs. pose proof (count_incs_nonneg (prog th)). destruct (tpc th);
 Lemma ok_next X : boundary (hnd X) (tok X) (prog X) -> thr_ok (next X).
 Proof.
   unfold boundary, thr_ok, next, tokbit. intros (H0 & Hk & W). destruct (prog X) as [|o r]; cbn; [auto|].
-  destruct o; cbn in *; unfold user, tokbit; try tauto. destruct W as [-> W]. lia.
+  destruct o; cbn in *; unfold user, tokbit; intuition lia.
 Qed.
 Lemma ok_finish X K : kont_inv K (hnd X) (tok X) (prog X) -> thr_ok (finish X K).
 Proof.
@@ -269,11 +269,15 @@ Proof. destruct K as [|[|]|p u|]; cbn; rewrite ?own_next; reflexivity. Qed.
 Lemma own_fallback X K : own (fallback X K) = own X.
 Proof. destruct K as [|g|p [|]|]; cbn; rewrite ?own_next; reflexivity. Qed.
 Lemma incs_next X : incs (next X) = count_incs (prog X).
-Proof. unfold incs, next, count_incs. destruct (prog X) as [|o r]; cbn; [lia|]. destruct o; cbn; lia. Qed.
+Proof.
+  unfold incs, next. destruct (prog X) as [|o r]; cbn [tpc prog]; [change (count_incs []) with 0; lia|].
+  change (count_incs (o :: r)) with ((match o with OCopy | OThen _ => 1 | _ => 0 end) + count_incs r).
+  destruct o; cbn [entry]; lia.
+Qed.
 Lemma incs_finish X K : incs (finish X K) = count_incs (prog X).
-Proof. destruct K as [|[|]|p u|]; cbn; rewrite ?incs_next; cbn; unfold incs; cbn; lia. Qed.
+Proof. destruct K as [|[|]|p u|]; unfold finish; rewrite ?incs_next; unfold incs; cbn [tpc prog goto logr]; lia. Qed.
 Lemma incs_fallback X K : incs (fallback X K) = count_incs (prog X).
-Proof. destruct K as [|g|p [|]|]; cbn; rewrite ?incs_next; cbn; unfold incs; cbn; lia. Qed.
+Proof. destruct K as [|g|p [|]|]; unfold fallback; rewrite ?incs_next; unfold incs; cbn [tpc prog goto logr]; lia. Qed.
 Lemma own_wake1 x : own (wake1 x) = own x.
 Proof. unfold own. destruct (wake1_fields x) as (_ & _ & -> & ->). reflexivity. Qed.
 Lemma incs_wake1 x : incs (wake1 x) = incs x.
@@ -292,3 +296,29 @@ Qed.
 
 Lemma wrap32_small z : 0 <= z < 4294967296 -> wrap 32 z = z.
 Proof. intros H. apply wrap_small. change (2 ^ 32) with 4294967296. exact H. Qed.
+
+Definition freed_ok (g : shared) : Prop := freed g = (if refc g =? 0 then 1 else 0) /\ bad_touch g = false.
+
+Lemma C_tstep c g th ch g' th' wk ch' site B :
+  tstep c g th ch = Some (g', th', wk, ch', site) -> thr_ok th -> own th <= refc g -> 0 <= conts g ->
+  refc g + incs th <= B -> B < 4294967296 -> freed_ok g ->
+  thr_ok th' /\ refc g' - conts g' - own th' = refc g - conts g - own th /\ 0 <= conts g' /\
+  refc g' + incs th' <= refc g + incs th /\ freed_ok g'.
+Proof.
+  intros T OK Ho Hc Hb HB (Hf & Ht).
+  pose proof (thr_ok_own _ OK) as (Hh & Hk & Hown).
+  pose proof (count_incs_nonneg (prog th)) as Hci.
+  unfold freed_ok, tokbit in *.
+  tcases T; zb;
+    try (assert (H1 : 1 <= own th) by (apply Hown; discriminate));
+    try (assert (F0 : freed g = 0) by (rewrite Hf; destruct (Z.eqb_spec (refc g) 0); lia));
+    rewrite ?own_next, ?own_finish, ?own_fallback, ?incs_next, ?incs_finish, ?incs_fallback;
+    unfold thr_ok in OK; rewrite Epc in OK; cbn [pc_kont] in OK;
+    unfold own, incs in *; rewrite ?Epc in *; fsimp;
+    rewrite ?wrap32_small by lia; rewrite ?Ht, ?F0; cbn [orb Z.ltb Z.compare].
+  all: (split; [first [apply ok_next | apply ok_finish | apply ok_fallback | (unfold thr_ok; rewrite ?Epc; fsimp; cbn [pc_kont])]|]).
+  all: try (split; [lia|]); try (split; [lia|]); try (split; [lia|]).
+  all: fsimp; try exact OK; try (split; [exact Hf | reflexivity]); try (unfold boundary, user, tokbit in *; intuition lia).
+  all: try (split; [eqb_goal; lia | reflexivity]).
+  all: destruct k; try discriminate; cbn [kont_inv] in OK; unfold boundary, user, tokbit in *; intuition lia.
+Qed.
